@@ -178,6 +178,15 @@ func runProperty(w *World, o *checkOpts) *Report {
 				if err == nil || stale == nil {
 					break
 				}
+				inCur := false
+				for _, cl := range cur.Clauses {
+					if cl == stale {
+						inCur = true
+					}
+				}
+				if !inCur {
+					break // the clause belongs to a callee's contract: nothing to drop here
+				}
 				if relevantClause(fc, stale, o.prop) {
 					rep.Errors = append(rep.Errors, fmt.Sprintf("%s: stale contract clause: %v", v.fname, err))
 				}
